@@ -40,6 +40,7 @@ ASSUMPTIONS = ["the real bytecode compiler/VM, definitely_assigned.rs, known_met
 
 KEY_EMPTY_STR = "C02/for-over-constant-empty-string"
 KEY_STALE = "C02/stale-module-constant-across-eval-module"
+KEY_SLICE = "C02/slice-fold-drops-nonconstant-bounds"
 
 
 # ---------------------------------------------------------------------------------------------------------------
@@ -378,9 +379,24 @@ def fam_dialect(rng, n):
     return out
 
 
+def fam_slice(rng, n):
+    """Three-part slices of constant and non-constant receivers with constant / parameter / effectful bounds."""
+    recv = ['"abcdefgh"', "(1, 2, 3, 4, 5)", "[1, 2, 3, 4, 5]", "range(10)", '""', "()"]
+    bnd = ["a", "b", "<<1>>", "<<-1>>", "<<5>>", "None", "<<None>>", "t(<<2>>)", "<<0>>", "<<\"x\">>", "<<100>>", "<<-100>>"]
+    out = []
+    for i in range(n):
+        r = rng.choice(recv)
+        parts = [rng.choice(bnd) for _ in range(3)]
+        sl = "%s:%s:%s" % tuple(parts) if rng.random() < 0.8 else "%s:%s" % tuple(parts[:2])
+        body = ("def f(a, b):\n    return <<%s>>[%s]\nemit(f(<<%s>>, <<%s>>))\nemit(f(<<%s>>, <<%s>>))\n"
+                % (r, sl, rng.choice(["1", "2", "-2", "None", "0"]), rng.choice(["3", "-1", "None", "2"]), rng.choice(["0", "5", '"x"']), rng.choice(["1", "-3", "4"])))
+        out.append(template_group("slf%d" % i, "slice-fold", body, lib=HELP_T))
+    return out
+
+
 FAMILIES = [("fold", fam_fold, 6), ("short-circuit", fam_short_circuit, 3), ("effect-stmt", fam_effect_stmt, 1), ("inline", fam_inline, 3),
             ("module-var", fam_module_var, 1), ("repl", fam_repl, 0.2), ("format", fam_format, 3), ("for-empty", fam_for_empty, 0.6),
-            ("dialect", fam_dialect, 3)]
+            ("dialect", fam_dialect, 3), ("slice-fold", fam_slice, 1)]
 
 
 def corpus_groups():
@@ -428,6 +444,8 @@ def classify(g, a, b, sa, sb):
             return KEY_EMPTY_STR
     if g["family"] == "repl-rebind":
         return KEY_STALE
+    if g["family"] == "slice-fold":
+        return KEY_SLICE
     if sa[0] == "CRASH" or sb[0] == "CRASH":
         return "C02/crash:" + g["family"].split(":")[0]
     return "C02/diff:%s:%s~%s" % (g["family"].split(":")[0], a, b)
@@ -501,11 +519,35 @@ def sig_of(ctx, src):
     return sig(res[0])
 
 
+def hide_slice_receivers(x):
+    """The program with the receiver of every three-part slice hidden: ExprCompiled::slice cannot fold it any more."""
+    if isinstance(x, tuple):
+        if x and x[0] == "slice" and x[2] is not None and x[3] is not None and x[4] is not None:
+            return ("slice", ("call", ("var", "opaque"), [hide_slice_receivers(x[1])], [], None, None),
+                    hide_slice_receivers(x[2]), hide_slice_receivers(x[3]), hide_slice_receivers(x[4]))
+        return tuple(hide_slice_receivers(y) for y in x)
+    if isinstance(x, list):
+        return [hide_slice_receivers(y) for y in x]
+    return x
+
+
+def triage_slice(ctx, g, a, b):
+    """A random program whose variants differ: is the known slice-folding defect the only cause?"""
+    if "prog" not in g:
+        return False
+    g2 = program_group(g["id"] + "-hs", hide_slice_receivers(g["prog"]))
+    sigs, _ = run_groups(ctx, [g2])
+    sa, sb = sigs[0].get(a), sigs[0].get(b)
+    return sa is not None and sa == sb
+
+
 def failures_of(ctx, groups, sigs, diffs, do_shrink=True):
     fails, seen = [], {}
     for gi, a, b, sa, sb in diffs:
         g = groups[gi]
         key = classify(g, a, b, sa, sb)
+        if key.startswith("C02/diff:random-program") and seen.get(key, 0) < 6 and triage_slice(ctx, g, a, b):
+            key = KEY_SLICE
         seen[key] = seen.get(key, 0) + 1
         if seen[key] > 1:
             continue
@@ -667,6 +709,10 @@ META = {
                   "optimisation (expression statements, if, for, dead code after terminal statements) is sound with the for-guard repaired. "
                   "The guards the model mirrors are read from the Rust text by the translator (Extracted/OptC.v, theorem "
                   "C02_extracted_guards): removing one breaks the proof build and starts the counter-example search. "
+                  "Findings of this check: ExprCompiled::slice as written (mirror slice_as_written) folds a slice of a constant "
+                  "receiver ignoring non-constant bounds - refuted by C02_slice_as_written_refuted, the proved slice_c is the intended "
+                  "guard; a module constant inlined into a def is stale after a later eval_module rebinding it (outside the model: one "
+                  "AstModule per Module). "
                   "Partial: the real compiler vs the model is tied by the metamorphic oracle and a white-box check of integer "
                   "folding, not proved; is_iterable_empty's string guard (a defect found by this check, since repaired) is shown "
                   "necessary by C02_for_stmt_string_guard_necessary.",
